@@ -369,6 +369,12 @@ def build():
         add(run_fn(f'integral<{R}>(cmap, map)', 'integral', msel(rf'8integralIaLm{R}ElE'), G, R, same_dims, post_integral,
                    'integral(): guards the empty tensor', has_self=False))
 
+    # -------------------------------------------------------------------------------- integral.h: VALUES of the rank-2 table (ispec.py)
+    import ispec
+    for tag, mang, M in (('int8', 'a', 128), ('int32', 'i', 2 ** 31)):
+        add(run_fn(f'integral_t<2>::get_values_{tag}', 'get', msel(rf'integral_tILm2EE3getI{mang}lE'), G, 2, ispec.setup_values(M), ispec.post_values,
+                   'summed-area table, rank 2: defining recurrence at a ghost cell, no overflow of the row additions', invariants={1: ispec.inv_values}, has_self=False))
+
     # -------------------------------------------------------------------------------- algorithm.h: detail::copy, ranks 1..3
     A = INC + 'algorithm.h'
     for R in (1, 2, 3):
